@@ -52,11 +52,11 @@ func init() {
 		if s, ok := args[1].(string); ok {
 			return re.MatchString(s)
 		}
-		rl, err := regexToSMTSearch(re.String())
+		t, err := matchTerm(re.String(), mustTerm(args[1]), fr.path())
 		if err != nil {
 			panic(engineError{"regexp not encodable: " + err.Error()})
 		}
-		return boolVal(InRe(mustTerm(args[1]), rl))
+		return boolVal(t)
 	})
 	reg("(*regexp.Regexp).FindStringSubmatch", func(fr *frame, args []value) value {
 		re := reOf(fr, args[0])
@@ -115,6 +115,9 @@ func regexToSMTSearch(pat string) (string, error) {
 		return "", err
 	}
 	re = re.Simplify()
+	if innerAnchors(re, true) {
+		return "", errInnerAnchors
+	}
 	begin, end := false, false
 	if re.Op == syntax.OpConcat {
 		subs := re.Sub
@@ -256,4 +259,114 @@ func RegexToSMT(re *syntax.Regexp) (string, error) {
 		return "(" + op + " " + strings.Join(parts, " ") + ")", nil
 	}
 	return "", fmt.Errorf("unsupported regexp op %v", re.Op)
+}
+
+var errInnerAnchors = fmt.Errorf("anchors inside the pattern")
+
+// innerAnchors reports whether re has ^/$ anywhere but at the two ends of a
+// top-level concatenation.
+func innerAnchors(re *syntax.Regexp, top bool) bool {
+	switch re.Op {
+	case syntax.OpBeginText, syntax.OpEndText, syntax.OpBeginLine, syntax.OpEndLine:
+		return !top
+	}
+	for i, sub := range re.Sub {
+		edge := top && re.Op == syntax.OpConcat && ((i == 0 && sub.Op == syntax.OpBeginText) || (i == len(re.Sub)-1 && sub.Op == syntax.OpEndText))
+		if edge {
+			continue
+		}
+		if innerAnchors(sub, false) {
+			return true
+		}
+	}
+	return false
+}
+
+// MatchTerm builds the constraint "the Go regexp pat matches s" (search
+// semantics). Patterns with anchors in inner positions are handled by
+// delimiting the subject with two marker characters outside the byte range
+// (symbolic strings are constrained to bytes 0..255) and turning ^ and $
+// into those markers.
+func MatchTerm(pat string, s *Term) (*Term, error) {
+	return matchTerm(pat, s, nil)
+}
+
+func matchTerm(pat string, s *Term, p *Path) (*Term, error) {
+	rl, err := regexToSMTSearch(pat)
+	if err == nil {
+		return InRe(s, rl), nil
+	}
+	if err != errInnerAnchors {
+		return nil, err
+	}
+	re, err := syntax.Parse(pat, syntax.Perl)
+	if err != nil {
+		return nil, err
+	}
+	body, err := regexToSMTMarked(re.Simplify())
+	if err != nil {
+		return nil, err
+	}
+	// the subject is a Go (byte) string: it contains neither marker
+	if p != nil && !s.lit {
+		p.Assume(Not(Contains(s, Raw(SStr, `"\u{100}"`))))
+		p.Assume(Not(Contains(s, Raw(SStr, `"\u{101}"`))))
+	}
+	subj := Concat(Concat(Raw(SStr, `"\u{100}"`), s), Raw(SStr, `"\u{101}"`))
+	return InRe(subj, "(re.++ re.all "+body+" re.all)"), nil
+}
+
+func regexToSMTMarked(re *syntax.Regexp) (string, error) {
+	switch re.Op {
+	case syntax.OpBeginText:
+		return `(str.to_re "\u{100}")`, nil
+	case syntax.OpEndText:
+		return `(str.to_re "\u{101}")`, nil
+	case syntax.OpAnyChar:
+		return `(re.range "\u{0}" "\u{ff}")`, nil
+	case syntax.OpAnyCharNotNL:
+		return `(re.diff (re.range "\u{0}" "\u{ff}") (str.to_re "\u{a}"))`, nil
+	case syntax.OpCapture:
+		return regexToSMTMarked(re.Sub[0])
+	case syntax.OpStar, syntax.OpPlus, syntax.OpQuest:
+		s, err := regexToSMTMarked(re.Sub[0])
+		if err != nil {
+			return "", err
+		}
+		op := map[syntax.Op]string{syntax.OpStar: "re.*", syntax.OpPlus: "re.+", syntax.OpQuest: "re.opt"}[re.Op]
+		return "(" + op + " " + s + ")", nil
+	case syntax.OpConcat, syntax.OpAlternate:
+		if len(re.Sub) == 0 {
+			return `(str.to_re "")`, nil
+		}
+		var parts []string
+		for _, sub := range re.Sub {
+			s, err := regexToSMTMarked(sub)
+			if err != nil {
+				return "", err
+			}
+			parts = append(parts, s)
+		}
+		if len(parts) == 1 {
+			return parts[0], nil
+		}
+		op := "re.++"
+		if re.Op == syntax.OpAlternate {
+			op = "re.union"
+		}
+		return "(" + op + " " + strings.Join(parts, " ") + ")", nil
+	case syntax.OpRepeat:
+		s, err := regexToSMTMarked(re.Sub[0])
+		if err != nil {
+			return "", err
+		}
+		if re.Max < 0 {
+			if re.Min == 0 {
+				return "(re.* " + s + ")", nil
+			}
+			return fmt.Sprintf("(re.++ ((_ re.^ %d) %s) (re.* %s))", re.Min, s, s), nil
+		}
+		return fmt.Sprintf("((_ re.loop %d %d) %s)", re.Min, re.Max, s), nil
+	}
+	return RegexToSMT(re) // literals and classes (clipped to bytes): no markers inside
 }
